@@ -58,6 +58,17 @@ def value_to_literal(val: object, loc):
             return None
 
 
+def _has_list(val: object) -> bool:
+    """Does the value contain a (mutable) list?"""
+    match val:
+        case list():
+            return True
+        case tuple():
+            return any(_has_list(elt) for elt in val)
+        case _:
+            return False
+
+
 class _ConstFoldInstance(DefaultTransformVisitor):
     """ConstFold rewriter — queries ``pe.by_expr`` at each node before
     descent and substitutes a literal on hit.  The ``enable_*`` flags
@@ -90,6 +101,10 @@ class _ConstFoldInstance(DefaultTransformVisitor):
         already has the same literal at this position) so ``simplify``
         can detect fixpoint."""
         if e not in self.pe.by_expr:
+            return None
+        if isinstance(e, Var) and _has_list(self.pe.by_expr[e]):
+            # a list has identity: replacing a name by a fresh list literal
+            # would detach it from the aliases that mutate it
             return None
         lit = value_to_literal(self.pe.by_expr[e], e.loc)
         if lit is None:
